@@ -199,7 +199,53 @@ def run(ctx: Ctx, driver: Driver):
         ctx.streams["step"] += len(lines)
     else:
         ctx.notes.append("driver unavailable")
+    resume_grid(ctx, rng)
     pairings(ctx, driver, rng)
+
+
+def resume_grid(ctx, rng):
+    """verify M2 on the session-resume path: a reply carrying GENUINE resume fields (method, new session id, valid auth
+    tag) together with an error code or a wrong state must still fail with the documented class - checked on the
+    implementation for the full grid codes x states x {IP/CoAP filtered, BLE unfiltered} x item orders"""
+    from cryptography.hazmat.primitives.asymmetric import x25519
+    rb = lambda n: bytes(rng.randrange(256) for _ in range(n))  # noqa: E731
+    ident = refacc.Identity(rb)
+    n = 0
+    for code in CODES:
+        for state in STATES:
+            for order in range(3):
+                for filtered in (True, False):
+                    prev, sid, eph, new_sid = rb(32), rb(8), rb(32), rb(8)
+
+                    def derive(salt, info, length=32, prev=prev):
+                        return refacc.hk(prev, salt, info, length)
+                    with mock.patch.object(P.x25519.X25519PrivateKey, "generate", staticmethod(lambda eph=eph: x25519.X25519PrivateKey.from_private_bytes(eph))):
+                        g = P.get_session_keys(ident.pairing_data(), sid, derive)
+                        req1, exp = g.send(None)
+                    ios_pk = bytes(dict((int(k), bytes(v)) for k, v in req1)[3])
+                    respkey = refacc.hk(prev, ios_pk + new_sid, b"Pair-Resume-Response-Info")
+                    tag = ChaCha20Poly1305(respkey).encrypt(b"\0\0\0\0PR-Msg02", b"", b"")
+                    resume = [(0, b"\x06"), (14, new_sid), (5, tag)]
+                    st = [(6, state)] if state is not None else []
+                    er = [(7, code)] if code is not None else []
+                    items = [st + er + resume, er + resume + st, resume + st + er][order]
+                    wire = refacc.tlv(items)
+                    decoded = TLV.decode_bytes(wire, expected=exp) if filtered else TLV.decode_bytes(wire)
+                    out = outcome(lambda: g.send(decoded))
+                    ctx.evaluations += 1
+                    n += 1
+                    ctx.nontrivial.add(("verifyM2-resume", code, state, order, filtered))
+                    ctx.dist[f"verifyM2-resume:{out}"] += 1
+                    case = {"stream": "resume-step", "filtered": filtered, "items": [[k, hx(v)] for k, v in items]}
+                    want = expected_outcome(b"\x02", state, code)
+                    if out.startswith("exc"):
+                        ctx.violation(f"verifyM2-resume/{out.split()[1]}", f"verify M2 (resume): reply {show(items)} raised non-library {out.split()[1]}", case)
+                    elif want is not None and out != want:
+                        ctx.violation(f"verifyM2-resume/{'filtered' if filtered else 'unfiltered'}/{'wrong-state' if 'Invalid' in want and state not in (None, bytes([2])) else 'error-code'}",
+                                      f"verify M2 on the resume path ({'IP/CoAP' if filtered else 'BLE'} decoding): reply {show(items)} -> {out}, documented outcome is {want}", case)
+                    elif want is None and out != "ok" and not filtered:
+                        ctx.violation("verifyM2-resume/rejected-genuine", f"genuine resume reply {show(items)} -> {out}", case)
+    ctx.notes.append(f"verify-M2 resume path: {n} cells checked on the implementation (oracle = documented error table); the Lean statement for this path is C01_resume_accept_implies_secret plus C04_error_fails applied to the same handle_state_step call")
 
 
 def show(items):
